@@ -1305,8 +1305,14 @@ where
 pub fn run_close_future_dropped(report: &mut Report) -> u64 {
     let servers = Servers::start("C18c");
     let mut n = 0u64;
-    for xport in [Xport::Tls, Xport::Local, Xport::Ssh] {
+    // 1-3 outstanding requests, answered in every order
+    let mut shapes: Vec<Vec<usize>> = Vec::new();
+    for outstanding in 1..=3usize {
+        shapes.extend(crate::e2::permutations(outstanding).into_iter().map(|p| p.into_iter().map(|i| i + 1).collect::<Vec<usize>>()));
+    }
+    for (xport, order) in [Xport::Tls, Xport::Local, Xport::Ssh].into_iter().flat_map(|x| shapes.iter().map(move |o| (x, o.clone()))) {
         n += 1;
+        let outstanding = order.len();
         let log: Arc<Mutex<ClientLog>> = Arc::default();
         let (tx, rx) = tokio::sync::mpsc::unbounded_channel();
         let l2 = log.clone();
@@ -1340,23 +1346,25 @@ pub fn run_close_future_dropped(report: &mut Report) -> u64 {
         _ = peer.send_chunk(server_hello().as_bytes());
         _ = wait_until(servers.prompt, || log.lock().unwrap().established.is_some());
         _ = peer.read_message(Duration::from_secs(3)); // client hello
-        let case = json!({"transport": format!("{xport:?}"), "outstanding_requests": 2, "then": "session.close() called and its reply future dropped; the peer answers the two requests"});
-        _ = tx.send(Cmd::Rpc);
-        _ = tx.send(Cmd::Rpc);
-        let got_requests = peer.read_message(Duration::from_secs(3)).is_some() && peer.read_message(Duration::from_secs(3)).is_some();
+        let case = json!({"transport": format!("{xport:?}"), "outstanding_requests": outstanding, "reply_order": order, "then": "session.close() called and its reply future dropped; the peer answers the outstanding requests in the stated order"});
+        for _ in 0..outstanding {
+            _ = tx.send(Cmd::Rpc);
+        }
+        let got_requests = (0..outstanding).all(|_| peer.read_message(Duration::from_secs(3)).is_some());
         if !got_requests {
-            panic!("machinery failure: the two requests never reached the peer on {xport:?}");
+            panic!("machinery failure: the {outstanding} requests never reached the peer on {xport:?}");
         }
         _ = tx.send(Cmd::CloseAndDrop);
         // the close-session request arrives (or not); then the session is gone
         _ = peer.read_message(Duration::from_millis(500));
         _ = wait_until(servers.prompt, || log.lock().unwrap().done);
         std::thread::sleep(Duration::from_millis(50));
-        _ = peer.send_chunk(reply_for(1).as_bytes());
-        _ = peer.send_chunk(reply_for(2).as_bytes());
-        let ok = wait_until(servers.prompt, || log.lock().unwrap().results.iter().filter(|r| r.is_some()).count() == 2);
+        for id in &order {
+            _ = peer.send_chunk(reply_for(*id).as_bytes());
+        }
+        let ok = wait_until(servers.prompt, || log.lock().unwrap().results.iter().filter(|r| r.is_some()).count() == outstanding);
         let l = log.lock().unwrap().clone();
-        for k in 0..2 {
+        for k in 0..outstanding {
             match l.results.get(k).cloned().flatten().map(|r| r.0) {
                 Some(Ok(v)) if v == tag_for(k + 1) => {}
                 Some(other) => report.violation(&format!("C18:transport:close-future-dropped:survivor-does-not-get-its-reply:{xport:?}"), &format!("{xport:?}: request {} resolved to {other:?} after the close-session reply future was dropped, although its reply arrived", k + 1), case.clone()),
